@@ -28,6 +28,10 @@ pub enum V {
     Bytes(Vec<u8>),
     ParamBytes(Vec<u8>),
     Str(String),
+    /// the name of the policy `Pol` used as a value: its 28-byte hash
+    PolicyName,
+    /// the name of the party `P` used as a value: its address
+    PartyName,
     Bool(bool),
     Unit,
     /// record type with the given fields (constructor 0)
@@ -58,7 +62,8 @@ impl Render {
     fn type_of(&mut self, v: &V) -> String {
         match v {
             V::Int(_) | V::ParamInt(_) => "Int".into(),
-            V::Bytes(_) | V::ParamBytes(_) | V::Str(_) => "Bytes".into(),
+            V::Bytes(_) | V::ParamBytes(_) | V::Str(_) | V::PolicyName => "Bytes".into(),
+            V::PartyName => "Address".into(),
             V::Bool(_) => "Bool".into(),
             V::Unit => "Int".into(), // no unit type in the language; field types are not checked against values
             V::Rec(fs) => {
@@ -134,6 +139,8 @@ impl Render {
                 name
             }
             V::Str(s) => format!("\"{s}\""),
+            V::PolicyName => "Pol".into(),
+            V::PartyName => "P".into(),
             V::Bool(b) => b.to_string(),
             V::Unit => "()".into(),
             V::Rec(fs) => {
@@ -172,6 +179,8 @@ pub fn expected(v: &V) -> PData {
         V::Int(n) | V::ParamInt(n) => PData::Int(BigInt::from_i128(*n)),
         V::Bytes(b) | V::ParamBytes(b) => PData::Bytes(b.clone()),
         V::Str(s) => PData::Bytes(s.as_bytes().to_vec()),
+        V::PolicyName => PData::Bytes(NAMED_POLICY.to_vec()),
+        V::PartyName => PData::Bytes(base_address(1, 0)),
         V::Bool(b) => PData::Constr(*b as u64, vec![]),
         V::Unit => PData::Constr(0, vec![]),
         V::Rec(fs) => PData::Constr(0, fs.iter().map(expected).collect()),
@@ -182,13 +191,14 @@ pub fn expected(v: &V) -> PData {
 }
 
 pub const MINT_POLICY: [u8; 28] = [0x5a; 28];
+pub const NAMED_POLICY: [u8; 28] = [0x5b; 28];
 
 pub fn render(v: &V, pos: Pos, order: usize) -> (String, tx3_tir::reduce::ArgMap) {
     let mut r = Render { order, types: vec![], memo: BTreeMap::new(), params: vec![] };
     r.type_of(v);
     let e = r.expr(v);
     let params: String = r.params.iter().map(|(n, t, _)| format!("{n}: {t}, ")).collect();
-    let mut src = String::from("party P;\n");
+    let mut src = format!("party P;\npolicy Pol = 0x{};\n", hex::encode(NAMED_POLICY));
     for t in &r.types {
         src.push_str(t);
     }
@@ -221,6 +231,8 @@ fn shape_kind(v: &V) -> &'static str {
         V::Int(_) | V::ParamInt(_) => "int",
         V::Bytes(_) | V::ParamBytes(_) => "bytes",
         V::Str(_) => "string",
+        V::PolicyName => "policy-name",
+        V::PartyName => "party-name",
         V::Bool(_) => "bool",
         V::Unit => "unit",
         V::Rec(_) => "record",
@@ -410,6 +422,11 @@ fn field_kind(k: usize) -> V {
         12 => V::Map(vec![(V::Int(3), V::Int(30)), (V::Int(1), V::Int(10)), (V::Int(2), V::Int(20))]),
         13 => V::Map(vec![(V::Bytes(vec![0x62]), V::Int(1)), (V::Bytes(vec![0x61, 0x00]), V::Int(2)), (V::Bytes(vec![0x61]), V::Int(3))]),
         14 => V::Map(vec![(V::Int(-1), V::Unit), (V::Int(300), V::Unit), (V::Int(0), V::Unit), (V::Int(24), V::Unit)]),
+        // names that stand for bytes: a policy (its hash), a party (its address), bare and inside a list / a map
+        15 => V::PolicyName,
+        16 => V::PartyName,
+        17 => V::List(vec![V::PolicyName, V::Bytes(vec![1])]),
+        18 => V::Map(vec![(V::PolicyName, V::PartyName)]),
         _ => V::List(vec![V::Rec(vec![V::Int(1)]), V::Rec(vec![V::Int(2)])]),
     }
 }
@@ -418,7 +435,7 @@ fn gen_shape(c: &mut Chooser) -> (V, Pos, usize) {
     let pos = *c.pick(&[Pos::Datum, Pos::MintRedeemer, Pos::InputRedeemer]);
     let order = c.choose(3);
     let nfields = c.choose(7);
-    let fields: Vec<V> = (0..nfields).map(|_| field_kind(c.choose(15))).collect();
+    let fields: Vec<V> = (0..nfields).map(|_| field_kind(c.choose(20))).collect();
     let wrapper = c.choose(3);
     let v = match wrapper {
         0 => V::Rec(fields),
@@ -475,7 +492,7 @@ impl Prop for C09 {
         format!(
             "programs generated from source and run through parse/analyze/lower/apply/reduce/compile; data read back with an independent Plutus-Data \
              reader. Axes (each complete): constructor index: {} (N, i) pairs x 3 positions (datum, mint redeemer, input redeemer); field shapes: all \
-             executions with <= 2 deviations of (position x written field order x 0..6 fields x 12 field kinds x record/variant/list wrapper); integers: every +-2^k, \
+             executions with <= 2 deviations of (position x written field order x 0..6 fields x 19 field kinds (incl. a policy name and a party name used as values) x record/variant/list wrapper); integers: every +-2^k, \
              +-(2^k +- 1), k < 127, i128 extremes ({} values) as parameter and (64-bit range) as literal, in datum and redeemer; byte strings of \
              every length 0..100 as parameter and literal. Non-trivial = the pipeline produced a payload and the data was decoded and compared; \
              distinct = distinct (value, position).",
